@@ -10,10 +10,12 @@ mod alloc;
 mod core;
 mod corpus;
 mod item;
+mod model;
 mod refhash;
 mod registry;
 mod rng;
 mod scen;
+mod speccodec;
 
 use crate::core::*;
 use serde_json::{Value, json};
